@@ -1205,6 +1205,7 @@ class Gen(object):
 
     def finish(self):
         rng = self.rng
+        self.off_prob = 0.0          # what is reduced into the outputs is recorded
         if self.pre_buf is not None:
             self.regs[self.pre_buf].kind = 'v'
             self.pre_buf = None
@@ -1231,8 +1232,9 @@ class Gen(object):
                     acc = self.emit('add', [acc, r], sh, m, t=True, p=True)
             if acc is None:
                 acc = self.reduce_to(0, sh)
-            if acc < len(self.n_in):
-                # an output must be a computed node, not the independent itself
+            if acc < len(self.n_in) or self.instrs[acc - len(self.n_in)].get('off'):
+                # an output must be a computed, recorded node: not the independent itself and not
+                # a value that was computed while recording was off (a constant of the graph)
                 acc = self.emit('mul', [acc, {'c': 1.5}], self.regs[acc].sh, self.regs[acc].mag * 1.5, t=True, p=True)
             self.outputs.append(acc)
 
